@@ -162,8 +162,25 @@ class SymStateVector(np.ndarray, ADT):
     def __pv_isinstance__(self, cls):
         return getattr(cls, "__name__", "") in ("StateVector", "Orbit", "ndarray")
 
-    def __getattr__(self, name):
+    def _index(self, name):
+        from beyond.orbits.forms import Form, get_form
         d = object.__getattribute__(self, "_data")
+        form = d.get("form")
+        if isinstance(form, str):
+            form = get_form(form)
+        name = Form.alt.get(name, name)
+        names = getattr(form, "param_names", None)
+        if names and name in names:
+            return names.index(name)
+        return None
+
+    def __getattr__(self, name):
+        if name.startswith("__"):
+            raise AttributeError(name)
+        d = object.__getattribute__(self, "_data")
+        i = self._index(name)
+        if i is not None:
+            return np.ndarray.__getitem__(self, i)
         if name in d:
             return d[name]
         if name == "maneuvers":
